@@ -53,7 +53,10 @@ SHORT = [
     "class A { def A() { } var z; attr w\n def m() { __CLASS__ + __FUNC__ } }", "a\n .b\n .c()", "x /* c */ + // d\n y", "#!/bin/chai\nprint(1)\n",
     "x := 3; y <<= 1; z ^= 2", "a && b || c & d | e ^ f", "a == b != c <= d >= e < f > g << h >> i", "true; false; Infinity; NaN; __LINE__; __FILE__; _",
     "f(\n1,\n2\n)", "return", "return 1", "{ { } }", "1;\r\n2\r\n3", "x;;y", "def f() { def g() { } }", "a.b.c = d.e", "\"${\"${1}\"}\"", "[[1,2],[3]]", "(((1)))",
-    "if (true) {} else {} else {}", "print(\"a\" + to_string(1))", "x[1][2](3).y", "- - x", "a ?\n b :\n c", "var f = fun(x) { x }\nf(2)",
+    "if (true) {} else {} else {}", "print(\"a\" + to_string(1))",
+    # empty forms of every bracketed construct, first in the input and after something else (the match stack is empty in the first case)
+    "[]", " [ ] ", "[].size()", "\"${[]}\"", "[][0]", "[]()", "x; []", "var v = []", "f([])", "()", "{}", "{ }", "f()", "a[]", "\"\"", "''", "\"${}\"",
+    "fun(){}()", "def f(){}", "class A{}", "try{}catch(e){}", "switch(x){}", "while(x){}", "if(x){}", "[[]]", "[[],[]]", "[()]", "({})", "[{}]", "// c\n[]", "/**/[]", "x[1][2](3).y", "- - x", "a ?\n b :\n c", "var f = fun(x) { x }\nf(2)",
 ]
 
 BRACKETS = "()[]{}"
